@@ -67,13 +67,28 @@ def _pos(x):
     return np.format_float_positional(float(x), trim="-")
 
 
-def write_recording(folder, typ, counts, ns, data, range_max):
+def _duration(ns, fs, meta_dur):
+    """fileTimeSecs as written in the meta file.  meta_dur: None = exact; ["decimals", k] = the true duration
+    rounded to k decimals (3A-era files have 4); ["samples", m] = the duration of m samples (a stale meta next
+    to a file that has grown or was cut).  The reader must expose the frames the FILE holds."""
+    if not meta_dur:
+        return _pos(ns / fs)
+    if meta_dur[0] == "decimals":
+        return "%.*f" % (meta_dur[1], ns / fs)
+    return _pos(meta_dur[1] / fs)
+
+
+def write_recording(folder, typ, counts, ns, data, range_max, meta_dur=None, tail_bytes=0):
     """Mock recording: <folder>/c10_g0_t0.<typ>.bin + .meta; returns the bin path."""
-    nc = len(data) // ns if ns else sum(counts)
-    D = np.array(data, dtype=np.int64).astype(np.int16).reshape(ns, nc)
+    if isinstance(data, np.ndarray):
+        D = data.astype(np.int16)
+        nc = D.shape[1]
+    else:
+        nc = len(data) // ns if ns else sum(counts)
+        D = np.array(data, dtype=np.int64).astype(np.int16).reshape(ns, nc)
     if typ == "nidq":
         fs = 30000.0
-        meta = {"nSavedChans": nc, "niSampRate": 30000, "fileTimeSecs": _pos(ns / fs), "typeThis": "nidq",
+        meta = {"nSavedChans": nc, "niSampRate": 30000, "fileTimeSecs": _duration(ns, fs, meta_dur), "typeThis": "nidq",
                 "snsMnMaXaDw": ",".join(str(c) for c in counts), "niMNGain": 200, "niMAGain": 1,
                 "niAiRangeMax": range_max, "niAiRangeMin": -range_max, "fileSizeBytes": ns * nc * 2}
         txt = "".join("%s=%s\n" % kv for kv in meta.items())
@@ -84,13 +99,16 @@ def write_recording(folder, typ, counts, ns, data, range_max):
         out = []
         for l in src.splitlines():
             if l.startswith("fileTimeSecs="):
-                l = "fileTimeSecs=" + _pos(ns / fs)
+                l = "fileTimeSecs=" + _duration(ns, fs, meta_dur)
             elif l.startswith("fileSizeBytes="):
                 l = "fileSizeBytes=%d" % (ns * nc * 2)
             out.append(l)
         txt = "\n".join(out) + "\n"
         p = folder / ("c10_g0_t0.imec1.%s.bin" % typ)
-    D.tofile(p)
+    with open(p, "wb") as f:
+        D.tofile(f)
+        if tail_bytes:                       # an incomplete trailing frame (copy interrupted, acquisition running)
+            f.write(bytes((7 * i + 1) % 256 for i in range(tail_bytes)))
     p.with_suffix(".meta").write_text(txt)
     return p
 
@@ -500,7 +518,7 @@ def exec_sync_read(case):
     tmp = common.tmpdir("C10_")
     sr = None
     try:
-        p = write_recording(tmp, typ, counts, ns, data, range_max)
+        p = write_recording(tmp, typ, counts, ns, data, range_max, case.get("meta_dur"), case.get("tail_bytes", 0))
         if case.get("path_as_str"):
             p = str(p)
         try:
@@ -650,7 +668,8 @@ def exec_ttl(case):
     tmp = common.tmpdir("C10_")
     sr = None
     try:
-        p = write_recording(tmp, typ, counts, ns, D.ravel().tolist(), 4)
+        p = write_recording(tmp, typ, counts, ns, D.ravel().tolist(), 4, case.get("meta_dur"),
+                            case.get("tail_bytes", 0))
         try:
             sr = spikeglx.Reader(p)
         except _IMPL_EXC as e:
